@@ -37,9 +37,10 @@ Section FetcherX.
   | GReject (i : N) (p : Z)
   | GTick
   | GClose (i : N)
-  | GRequest (i : N) (p : N).                  (* oracle: the implementation wrote a request for block p to peer i *)
+  | GRequest (i : N) (p : N)                   (* oracle: the implementation wrote a request for block p to peer i *)
+  | GAsk (i : N) (ps : list Z).                (* the PEER asks us for blocks (one segment or split): a magnet download rejects *)
 
-  Inductive gout := GClosed (i : N) | GQ (i : N) (id : N) (p : N) | GInadmissible (i : N) (p : N).
+  Inductive gout := GClosed (i : N) | GQ (i : N) (id : N) (p : N) | GInadmissible (i : N) (p : N) | GJ (i : N) (id : N) (p : N).
 
   Definition ginit (want : list N) : gstate := mkG want None [] None [].
 
@@ -89,6 +90,14 @@ Section FetcherX.
       | GReject _ _ => (g, [])
       | GTick => (g, [])
       | GClose i => (with_peers g (drop_peer i (g_peers g)), [])
+      | GAsk i ps =>
+        (* parse_ut_metadata msg_type 0 -> send_metadata_piece: is_meta_download -> reject, written with
+           id(UT_METADATA); ignored when that id is 0 (941ab7d). Every request is answered, however the
+           bytes were segmented (reads_resume on the metadata connection). *)
+        match find_peer i (g_peers g) with
+        | Some q => if p_idm q =? 0 then (g, []) else (g, map (fun z => GJ i (p_idm q) (u64 z)) ps)
+        | None => (g, [])
+        end
       | GRequest i p =>
         match find_peer i (g_peers g), g_size g with
         | Some q, Some sz =>
@@ -136,7 +145,7 @@ Section FetcherX.
       - destruct ((u64 z =? 0) || (67108864 <? u64 z)); [reflexivity|].
         destruct (match g_size g0 with Some n0 => if n0 <? 2 then None else Some n0 | None => None end); [destruct (_ =? _); [destruct (match m with Some _ => true | None => p_rs q end)|]|destruct (match m with Some _ => true | None => p_rs q end)]; reflexivity.
       - destruct (match m with Some _ => true | None => p_rs q end); reflexivity. }
-    destruct o as [i m s|i m s|i pz b|i p| |i|i p]; try reflexivity.
+    destruct o as [i m s|i m s|i pz b|i p| |i|i p|i ps]; try reflexivity.
     - rewrite HS. reflexivity.
     - destruct (find_peer i (g_peers g)); [apply HS|reflexivity].
     - destruct (find_peer i (g_peers g)); [|reflexivity]. destruct (g_size g); [|reflexivity].
@@ -145,6 +154,7 @@ Section FetcherX.
       + destruct (_ =? 0); reflexivity.
     - destruct (find_peer i (g_peers g)); [|reflexivity]. destruct (g_size g); [|reflexivity].
       destruct (_ && _); reflexivity.
+    - destruct (find_peer i (g_peers g)); [destruct (_ =? 0)|]; reflexivity.
   Qed.
 
   Lemma gstep_gate : forall g o,
@@ -157,7 +167,7 @@ Section FetcherX.
       - destruct ((u64 z =? 0) || (67108864 <? u64 z)); [exact Hn|].
         destruct (match g_size g0 with Some n0 => if n0 <? 2 then None else Some n0 | None => None end); [destruct (_ =? _); [destruct (match m with Some _ => true | None => p_rs q end)|]|destruct (match m with Some _ => true | None => p_rs q end)]; exact Hn.
       - destruct (match m with Some _ => true | None => p_rs q end); exact Hn. }
-    destruct o as [i m s|i m s|i pz b|i p| |i|i p].
+    destruct o as [i m s|i m s|i pz b|i p| |i|i p|i ps].
     - rewrite HS in Hd; [discriminate Hd|exact E0].
     - destruct (find_peer i (g_peers g)); [rewrite HS in Hd; [discriminate Hd|exact E0]|cbn in Hd; rewrite E0 in Hd; discriminate Hd].
     - destruct (find_peer i (g_peers g)); [|cbn in Hd; rewrite E0 in Hd; discriminate Hd].
@@ -174,6 +184,7 @@ Section FetcherX.
     - destruct (find_peer i (g_peers g)); [|cbn in Hd; rewrite E0 in Hd; discriminate Hd].
       destruct (g_size g); [|cbn in Hd; rewrite E0 in Hd; discriminate Hd].
       destruct (_ && _); cbn in Hd; rewrite E0 in Hd; discriminate Hd.
+    - destruct (find_peer i (g_peers g)); [destruct (_ =? 0)|]; cbn in Hd; rewrite E0 in Hd; discriminate Hd.
   Qed.
 
   (* the executable fetcher model completes only with verified metadata, whatever the providers
